@@ -1513,6 +1513,13 @@ def replay(ctx, path):
     print(json.dumps(rec, indent=1, ensure_ascii=False)[:4000])
     common.setup_jedi(os.path.join(ctx.tmp, 'cache'))
     import jedi
+    if (rec.get('sig') or {}).get('stream') == 'edited' and rec.get('sources'):
+        srcs = rec['sources']
+        call = srcs[0][srcs[0].rindex('\n') + 1:]
+        obj = {'f(': 'g["f"]', 'k.m(': 'g["k"].m', 'B(': 'g["B"]'}[call]
+        for r in _edited_task(dict(k=0, dir=ctx.tmp, obj=obj, call=call, srcs=srcs)):
+            print('implementation now, step %d: reported %r, the text defines %r' % (r['step'], r['got'], r['want']))
+        return 0
     w = rec.get('where') or (rec.get('input') or {}).get('where')
     if w and 'source' in w:
         src = w['source'] + w.get('call', '')
